@@ -356,3 +356,75 @@ def promoted_rvalue(crate, body, desc):
     if d["k"] == "rvalue":
         return d["r"]
     return None
+
+
+def leaves(body, op, depth=40):
+    """Backward data slice of an operand down to its leaf sources.  Returns a set of strings:
+         'field:<a.b.c>'   read of a field path rooted at an argument / captured place
+         'arg:<n>'         an argument without field projection
+         'call:<name>'     result of a call (its arguments are sliced too)
+         'const'           a constant
+         'loop/multi/...'  anything the walk could not resolve is reported as 'unknown:<kind>'
+       Only value flow (use / ref / cast / bin / un / agg / call args) is followed, not control dependence."""
+    out = set()
+    seen = set()
+
+    def place_leaf(p):
+        names = [e.get("n") for e in p.get("p", []) if isinstance(e, dict) and "f" in e and e.get("n")]
+        return names
+
+    def walk(o, d):
+        if o is None:
+            return
+        if o.get("k") == "const":
+            out.add("const")
+            return
+        p = o["p"] if o.get("k") in ("copy", "move") else o
+        if not isinstance(p, dict) or "l" not in p:
+            out.add("unknown:operand")
+            return
+        l = p["l"]
+        for e in p.get("p", []):
+            if isinstance(e, dict) and "idx" in e:
+                walk({"k": "copy", "p": {"l": e["idx"]}}, d + 1)
+        key = (l, tuple(place_leaf(p)))
+        if key in seen:
+            return
+        seen.add(key)
+        if d > depth:
+            out.add("unknown:deep")
+            return
+        desc = body.origin({"k": "copy", "p": p}, depth=1) if False else None
+        if 1 <= l <= body.d["arg_count"]:
+            dd = body.origin({"k": "copy", "p": p})
+            names = [e.get("n") for e in dd.get("proj", []) if isinstance(e, dict) and "f" in e and e.get("n")]
+            out.add("field:" + ".".join(names) if names else "arg:%d" % l)
+            return
+        names = place_leaf(p)
+        ds = body.defs_of(l)
+        if not ds:
+            out.add("unknown:undef")
+            return
+        for bb, idx, r in ds:
+            if idx == "term":
+                f = r.get("f")
+                out.add("call:" + (f["name"] if f else "?indirect"))
+                for a in r.get("args", []):
+                    walk(a, d + 1)
+                continue
+            k = r["k"]
+            if k in ("use", "cast", "un", "repeat"):
+                walk(r.get("o"), d + 1)
+            elif k in ("ref", "copyderef", "rawptr", "discr", "len"):
+                walk({"k": "copy", "p": r["p"]}, d + 1)
+            elif k == "bin":
+                walk(r["a"], d + 1)
+                walk(r["b"], d + 1)
+            elif k == "agg":
+                for x in r.get("ops", []):
+                    walk(x, d + 1)
+            else:
+                out.add("unknown:" + str(k))
+
+    walk(op, 0)
+    return out
